@@ -25,7 +25,9 @@ ENTRIES = {
                 "C35 allows (exhaustive, N=6); runs of the real Syncer with prefilled stores, pruning of window-edge "
                 "headers, header-sub heads and disconnects are recorded and validated by Trace_Syncer: at every "
                 "FetchingHeadersStarted no synced (stored or pruned) header above the batch may be older than the "
-                "sampling window.",
+                "sampling window. SyncerFetch.tla refines fetch_next_batch into its three store calls with the pruner "
+                "interleaved (TLC: holds with the repaired re-read, fails with the stale snapshot); in the recorded runs a "
+                "store wrapper performs pruner removals between those calls of the real worker.",
         "design_ref": "7 C25, A.3",
         "note": "Real-clock window checks are kept >= 50 s away from any boundary (headers 100 s apart); the "
                 "pruner is played by the harness and obeys C35. Slow-sync is disabled in recorded runs (huge pruning "
@@ -35,7 +37,7 @@ ENTRIES = {
     "C38": {
         "text": "TLC checks StoreOnHonestChain with peers serving a foreign chain / failures and EventuallySynced under "
                 "fairness with honest answers; recorded runs of the real Syncer + real HeaderSession against honest, "
-                "foreign-chain (other validator key), truncated, erroring and failing answers with disconnects are "
+                "foreign-chain (other validator key, and forks signed by the same validator), truncated, erroring and failing answers with disconnects are "
                 "validated by Trace_Syncer: the store is read back after every event and must only hold honest "
                 "headers; after an honest tail phase the whole sampling window up to the head must be stored.",
         "design_ref": "7 C38",
@@ -72,9 +74,26 @@ def mc(ck):
         ck.tlc_mc("MC_Node", ck.cfg_with("MC_Node_live.cfg"), tag="mc_node_live", timeout=3000, workers=4)
 
 
+def mc_fetch_section(ck):
+    """SyncerFetch.tla: fetch_next_batch as three store calls with the pruner in between."""
+    n = 5 if ck.quick else 6
+    ck.tlc_mc("SyncerFetch", ck.cfg_with("SyncerFetch.cfg", {"N": n, "Recheck": "TRUE", "MaxNow": n + 2}, name="SyncerFetch_fixed.cfg"),
+              tag="mc_fetch_fixed", timeout=2400, required_actions=["Read1", "Read2", "Decide", "Prune", "MarkSampled", "Tick"])
+    if ck.prop == "C25":
+        # the section as it was before the repair: a stale snapshot of the pruned ranges
+        ck.tlc_mc("SyncerFetch", ck.cfg_with("SyncerFetch.cfg", {"N": 5, "Recheck": "FALSE"}, name="SyncerFetch_stale.cfg"),
+                  tag="mc_fetch_stale", expect_violation="NoRequestBelowOldHeader")
+    if ck.prop == "C24":
+        # a design reading the pruned ranges before the stored ranges must be refuted
+        ck.tlc_mc("SyncerFetch", ck.cfg_with("SyncerFetch.cfg", {"N": 5, "Recheck": "TRUE", "ReadOrder": '"PS"'}, name="SyncerFetch_ps.cfg"),
+                  tag="mc_fetch_ps", expect_violation="FetchAllowed")
+
+
 def run(ck):
     hb = ck.build("h-node")
     mc(ck)
+    if ck.prop == "C25":
+        mc_fetch_section(ck)
     guided_validate(ck, hb)
     record_validate(ck, hb)
 
